@@ -717,7 +717,7 @@ float_total!(float_f_prec0, 0, true);
 float_total!(float_e_prec0, 1, true);
 //@harness name=float_g_prec0 tier=thorough timeout=3600 unwind=32 spurious="iv >= 0.0|render_integer receives sign" desc="%.0g never panics (the scientific branch uses powf, over-approximated by CBMC: a failure of render_integer's sign assertion counts only when it reproduces natively)" bounds="value: every finite double; width <= 12; every flag subset"
 float_total!(float_g_prec0, 2, true);
-//@harness tier=quick timeout=600 desc="%f with a precision beyond the double exponent range (10^precision is infinite): must not panic" bounds="precision 309..=320 and 65530..=65535, value: every finite double, width <= 12"
+//@harness tier=quick timeout=600 desc="%f with a precision beyond the double exponent range (10^precision is infinite): must not panic" bounds="precision 309..=320 and 65530..=65535, value: every finite double with |v| >= 1, width <= 12"
 #[kani::proof]
 #[kani::unwind(32)]
 pub fn float_f_bigprec() {
@@ -727,7 +727,9 @@ pub fn float_f_bigprec() {
     let prec: u16 = kani::any();
     kani::assume((prec >= 309 && prec <= 320) || prec >= 65530);
     let v: f64 = kani::any();
-    kani::assume(v.is_finite());
+    // |v| >= 1: the scaled value is +inf on every path (for smaller values CBMC's fused multiply-add model
+    // lets some paths continue into `precision` iterations of zero padding, beyond any unwinding bound)
+    kani::assume(v.is_finite() && v.abs() >= 1.0);
     let code = Code { mkey: "", cflags: flags, width: Width::Fixed(width), precision: Some(Width::Fixed(prec)), convtype: ConvTypeV::Float, caps: false };
     #[cfg(verif_playback)]
     {
